@@ -7,6 +7,7 @@ package verifsim
 // synctest bubble (fake clock).
 
 import (
+	"bytes"
 	"context"
 	"crypto/sha256"
 	"database/sql"
@@ -403,10 +404,42 @@ type simW struct {
 
 func (y *simW) GetLatest() ([]byte, error) {
 	if k := y.e.seam("W.GetLatest", y.id); k != "" {
+		if dmg := damagedRead[k]; dmg != nil {
+			b, err := y.in.GetLatest()
+			if err != nil {
+				return b, err
+			}
+			y.e.mu.Lock()
+			y.e.stats.Probes["damaged_read_served"]++
+			y.e.mu.Unlock()
+			return dmg(append([]byte(nil), b...)), nil
+		}
 		return nil, injected(k)
 	}
 	return y.in.GetLatest()
 }
+
+// damagedRead: the read of the previous checkpoint "succeeds" but what comes back is not what was written (a flipped stored
+// byte, a torn row, a blank row). Each damages the text the LOG signed, so that no reading of the bytes can verify: "corrupt"
+// changes one of the first 40 characters of the root-hash line, "torn" keeps the first half, "blank" keeps nothing.
+var damagedRead = map[string]func([]byte) []byte{
+	"corrupt": func(b []byte) []byte {
+		lines := bytes.SplitN(b, []byte("\n"), 4)
+		if len(lines) < 4 || len(lines[2]) < 40 {
+			return b[:len(b)/2]
+		}
+		at := len(lines[0]) + 1 + len(lines[1]) + 1 + len(b)%40
+		if b[at] == 'A' {
+			b[at] = 'B'
+		} else {
+			b[at] = 'A'
+		}
+		return b
+	},
+	"torn":  func(b []byte) []byte { return b[:len(b)/2] },
+	"blank": func(b []byte) []byte { return b[:0] },
+}
+
 func (y *simW) Set(b []byte) error {
 	if k := y.e.seam("W.Set", y.id); k != "" {
 		return injected(k) // fail-stop: not applied
